@@ -17,7 +17,8 @@ LEVEL_TEXT = ("Every catalogued clause is appended to each of 12 table bodies th
               "(top level / table_properties / common field); in combinations the deltas must merge without loss."
               " Clause values that are zero, FALSE or an empty literal are catalogued as separate entries (a value is captured whatever it is)."
               " Two tables in one script, each with one clause of the same dialect (incl. two spellings of the same clause), must each show their own value."
-              " Defect hunt: BigQuery CLUSTER BY with several columns and no parentheses; two tables without ';' terminators (the first statement ends in a clause value).")
+              " Defect hunt: BigQuery CLUSTER BY with several columns and no parentheses; two tables without ';' terminators (the first statement ends in a clause value)."
+              " Wave 6: the mixed-terminator script (an unterminated statement ended by a complete one-line ';'-terminated statement).")
 LEVEL_NOTE = ("Catalogue transcribed from README/tests at the pinned commit and frozen here (key, value, placement per mode). Clause orders the "
               "dialect itself forbids (Oracle: ORGANIZATION INDEX must precede TABLESPACE/STORAGE) are not generated. Bare SORTKEY(..) is "
               "outside the property's clause list.")
